@@ -1,28 +1,31 @@
 /-
-  `Simulator.step()` (model: `AcnModel/SimStep.lean`), the code AS IT IS.
+  `Simulator.step()` (model: `AcnModel/SimStep.lean`).
 
-  FULL STATEMENT one would like (kept here, NOT provable — it is false for the code as it is):
-    "a simulation driven by `step(σ_k)`, where `σ_k` is the schedule the scheduler would have
-     returned, visits the same states as `run()`".
-  What is true, and proved below for every configuration, schedule and state:
-  * `step_noop_of_resolve`   — a call made while `_resolve` is set changes nothing and returns
-                               `event_queue.empty()`; `_resolve` is cleared only INSIDE the loop;
-  * `stepPass_sets_resolve`  — a pass of the loop that processes at least one event leaves
-                               `_resolve` set;
-  * `steps_stall`            — hence after the first call in which an event was processed, every
-                               later `step()` call, with any schedules, is a no-op: a `step()`-driven
-                               simulation cannot get past its first event;
-  * `step_typeError`         — with `max_recompute` set and `_last_schedule_update is None` (no
-                               schedule update or EV event yet) the loop condition raises
-                               `TypeError` (`int - None`).
-  (Both behaviours are reproduced on the real `Simulator` by the correspondence, C01 stream
-  `driven_by=step`.)
+  (A) The REPAIRED code (F17 fix): what is true of `step()` now.
+      * `step_runs_first_pass`      — when events are left, the loop body runs for the current
+                                      period whatever `_resolve` / `max_recompute` say;
+      * `stepPass_applies_schedule` — the schedule handed in is applied to the CURRENT period: the
+                                      pilot column of period `t` (which `update_pilots` hands to the
+                                      EVSEs) is the schedule's entry for `t` (0 for omitted stations),
+                                      and the period counter advances by one;
+      * `stepPass_core`             — relation to `run()`: a pass is the SAME stages as a period of
+                                      `run()`, rotated: `run`: events(t) · schedule · apply(t) · t+1;
+                                      `step`: schedule · apply(t) · t+1 · events(t+1).
+      NOT true (and not repaired; C01 is about `run()`): "a `step()`-driven simulation visits the
+      states of `run()`" — the events with timestamp t are processed after the trip of period t−1, so
+      timestamp-0 events are processed at iteration 1, and the same schedule is re-submitted in
+      every pass of one call.
+  (B) The code BEFORE the fix (`…Unfixed`), kept as documentation of finding F17:
+      `stepUnfixed_noop_of_resolve`, `stepPass_sets_resolve`, `stepsUnfixed_stall`,
+      `stepUnfixed_typeError`.
 -/
 import AcnModel.SimStep
 import AcnProofs.Lemmas.EventCoreSim
+import AcnProofs.Lemmas.EventCorePilots
 import AcnProofs.Lemmas.ResumeInv
 
 set_option linter.unusedSectionVars false
+set_option linter.unusedSimpArgs false
 
 namespace Acn.Sim
 open Acn Acn.EventCore
@@ -30,33 +33,137 @@ open Acn Acn.EventCore
 variable {K : Type} [Add K] [Sub K] [Mul K] [Div K] [Neg K] [LT K] [LE K]
   [DecidableLT K] [DecidableLE K] [OfNat K 0] [OfNat K 1] [NatCast K] [HasExp K]
 
-theorem stepCond_of_resolve (mr : Option Nat) (c : Core) (h : c.resolve = true) :
-    stepCond mr c = .ok false := by
-  unfold stepCond
+/-! ### (A) the repaired `step()` -/
+
+/-- events left ⇒ the first pass of the loop is executed, whatever `_resolve`, `max_recompute`
+    and `_last_schedule_update` are (no `TypeError`, no dropped schedule) -/
+theorem step_runs_first_pass (cfg : Cfg K) (sch : Schedule K) (n : Nat) (s s' : State K)
+    (hp : s.core.pending ≠ []) (hpass : stepPass cfg sch s = (s', none)) :
+    stepLoop cfg sch (n + 1) true s = stepLoop cfg sch n false s' := by
+  have : s.core.pending.isEmpty = false := by
+    cases hpe : s.core.pending with
+    | nil => exact absurd hpe hp
+    | cons a l => rfl
+  simp [stepLoop, stepCond, this, hpass]
+
+/-- … and if that pass raises, `step()` raises the same error (never the `TypeError` of the
+    unrepaired loop condition) -/
+theorem step_first_pass_error (cfg : Cfg K) (sch : Schedule K) (n : Nat) (s s' : State K) (e : Err)
+    (hp : s.core.pending ≠ []) (hpass : stepPass cfg sch s = (s', some e)) :
+    stepLoop cfg sch (n + 1) true s = (s', some (.base e)) := by
+  have : s.core.pending.isEmpty = false := by
+    cases hpe : s.core.pending with
+    | nil => exact absurd hpe hp
+    | cons a l => rfl
+  simp [stepLoop, stepCond, this, hpass]
+
+theorem applyStageW_spec (cfg : Cfg K) (w : Nat) (s : State K) (h : (applyStageW cfg w s).2 = none) :
+    (applyStageW cfg w s).1.pilots = Pilots.increaseWidth s.pilots w ∧
+    (applyStageW cfg w s).1.core = advance s.core := by
+  unfold applyStageW at h ⊢
+  have hc1 : (widenW w s).core = s.core := rfl
+  have hp1 : (widenW w s).pilots = Pilots.increaseWidth s.pilots w := rfl
+  generalize widenW w s = s1 at h hc1 hp1 ⊢
+  by_cases hcond : s1.pilots.width ≤ s.core.iter
+  · simp [hcond] at h
+  · simp only [hcond, if_false] at h ⊢
+    have hu := updatePilotsFrom_core cfg cfg.stations 0 s1
+    have hup' := updatePilotsFrom_pilots cfg cfg.stations 0 s1
+    rcases hup : updatePilots cfg s1 with ⟨s2, _ | e⟩
+    · simp only [hup] at h ⊢
+      have hr := storeRates_core cfg w s2
+      have hr' := storeRates_pilots cfg w s2
+      unfold updatePilots at hup
+      rw [hup] at hu hup'
+      rcases hst : storeRates cfg w s2 with ⟨s3, _ | e⟩
+      · rw [hst] at hr hr'
+        simp only at hr hr' hu hup' ⊢
+        exact ⟨by rw [hr', hup', hp1], by rw [hr, hu, hc1]⟩
+      · simp [hst] at h
+    · simp [hup] at h
+
+/-- RELATION TO `run()`: a pass of `step()` that raises nothing is, on the event core,
+    `markScheduled` · `advance` · `eventsStage` — the stages of a `run()` period, rotated -/
+theorem stepPass_core (cfg : Cfg K) (sch : Schedule K) (s : State K) (h : (stepPass cfg sch s).2 = none) :
+    ((stepPass cfg sch s).1.core, (none : Option Err)) =
+      EventCore.eventsStage cfg.core (advance (markScheduled s.core)) := by
+  unfold stepPass at h ⊢
+  rcases hu : Pilots.updateSchedules (cfg.stations.map (·.id)) s.pilots s.core.iter
+      ((lastTs s.core.pending).map Int.toNat) sch with e | m
+  · simp [hu] at h
+  · simp only [hu] at h ⊢
+    rcases ha : applyStageW cfg (stepWidthInc { s with pilots := m, core := markScheduled s.core })
+        { s with pilots := m, core := markScheduled s.core } with ⟨s2, _ | e⟩
+    · simp only [ha] at h ⊢
+      have hsp := (applyStageW_spec cfg _ _ (by rw [ha])).2
+      rw [ha] at hsp
+      simp only at hsp
+      have hp := eventsStage_core cfg s2
+      rw [h, hsp] at hp
+      exact hp
+    · simp [ha] at h
+
+/-- THE SCHEDULE HANDED IN IS APPLIED TO THE CURRENT PERIOD: after a pass that raises nothing, with
+    a schedule `_update_schedules` accepts and that has at least one column, the pilot of every
+    station in period `t = iteration` is the schedule's entry for it (0 if omitted), and the
+    iteration has advanced by one -/
+theorem stepPass_applies_schedule (cfg : Cfg K) (sch : Schedule K) (s : State K)
+    (hwf : s.pilots.WF (cfg.stations.map (·.id)).length) (h : (stepPass cfg sch s).2 = none)
+    (hcov : Pilots.covers (cfg.stations.map (·.id))
+      ⟨s.core.iter, (lastTs s.core.pending).map Int.toNat, sch⟩ s.core.iter = true) (st : String) :
+    (stepPass cfg sch s).1.pilots.get ((cfg.stations.map (·.id)).idxOf st) s.core.iter =
+      Pilots.valueOf ⟨s.core.iter, (lastTs s.core.pending).map Int.toNat, sch⟩ st s.core.iter ∧
+    (stepPass cfg sch s).1.core.iter = s.core.iter + 1 := by
+  have hcore := stepPass_core cfg sch s h
+  have hsub := Pilots.submit_get hwf ⟨s.core.iter, (lastTs s.core.pending).map Int.toNat, sch⟩ st s.core.iter
+  rw [hcov] at hsub
+  simp only [if_true] at hsub
+  unfold stepPass at h ⊢
+  rcases hu : Pilots.updateSchedules (cfg.stations.map (·.id)) s.pilots s.core.iter
+      ((lastTs s.core.pending).map Int.toNat) sch with e | m
+  · simp [hu] at h
+  · simp only [Pilots.submit, hu] at hsub
+    simp only [hu] at h ⊢
+    rcases ha : applyStageW cfg (stepWidthInc { s with pilots := m, core := markScheduled s.core })
+        { s with pilots := m, core := markScheduled s.core } with ⟨s2, _ | e⟩
+    · simp only [ha] at h ⊢
+      have hsp := applyStageW_spec cfg _ _ (by rw [ha])
+      rw [ha] at hsp
+      simp only at hsp
+      refine ⟨?_, ?_⟩
+      · rw [eventsStage_pilots, hsp.1, Acn.C04.increaseWidth_get, hsub]
+      · rw [eventsStage_iter, hsp.2]; rfl
+    · simp [ha] at h
+
+/-! ### (B) before the fix: finding F17 -/
+
+theorem stepCondUnfixed_of_resolve (mr : Option Nat) (c : Core) (h : c.resolve = true) :
+    stepCondUnfixed mr c = .ok false := by
+  unfold stepCondUnfixed
   split
   · rfl
   · simp [h]
 
-/-- a `step()` call made while `_resolve` is set does nothing -/
-theorem step_noop_of_resolve (cfg : Cfg K) (sch : Schedule K) (fuel : Nat) (s : State K)
-    (h : s.core.resolve = true) : step cfg sch fuel s = (s, .ok s.core.pending.isEmpty) := by
-  unfold step
+/-- F17: a `step()` call made while `_resolve` is set did nothing -/
+theorem stepUnfixed_noop_of_resolve (cfg : Cfg K) (sch : Schedule K) (fuel : Nat) (s : State K)
+    (h : s.core.resolve = true) : stepUnfixed cfg sch fuel s = (s, .ok s.core.pending.isEmpty) := by
+  unfold stepUnfixed
   cases fuel with
   | zero => rfl
-  | succ n => simp [stepLoop, stepCond_of_resolve _ _ h]
+  | succ n => simp [stepLoopUnfixed, stepCondUnfixed_of_resolve _ _ h]
 
-/-- `TypeError` in the loop condition: `max_recompute` set, nothing scheduled yet -/
-theorem step_typeError (cfg : Cfg K) (sch : Schedule K) (fuel : Nat) (s : State K) (m : Nat)
+/-- F17: `TypeError` in the loop condition (`max_recompute` set, nothing scheduled yet) -/
+theorem stepUnfixed_typeError (cfg : Cfg K) (sch : Schedule K) (fuel : Nat) (s : State K) (m : Nat)
     (hm : cfg.maxRecompute = some m) (hp : s.core.pending ≠ []) (hr : s.core.resolve = false)
-    (hl : s.core.lastUpd = none) : step cfg sch (fuel + 1) s = (s, .error .typeError) := by
-  have hc : stepCond cfg.maxRecompute s.core = .error .typeError := by
-    unfold stepCond
+    (hl : s.core.lastUpd = none) : stepUnfixed cfg sch (fuel + 1) s = (s, .error .typeError) := by
+  have hc : stepCondUnfixed cfg.maxRecompute s.core = .error .typeError := by
+    unfold stepCondUnfixed
     have : s.core.pending.isEmpty = false := by
       cases hpe : s.core.pending with
       | nil => exact absurd hpe hp
       | cons a l => rfl
     simp [this, hr, hm, hl]
-  simp [step, stepLoop, hc]
+  simp [stepUnfixed, stepLoopUnfixed, hc]
 
 /-- a pass of the loop that processes at least one event leaves `_resolve` set -/
 theorem eventsStage_sets_resolve (cfg : Cfg K) (s : State K) (h : (eventsStage cfg s).2 = none)
@@ -82,16 +189,15 @@ theorem stepPass_sets_resolve (cfg : Cfg K) (sch : Schedule K) (s : State K) (m 
   simp only [hu, ha] at hok ⊢
   exact eventsStage_sets_resolve cfg s2 hok hne
 
-/-- once `_resolve` is set, a whole sequence of `step()` calls — any schedules — leaves the
-    simulator where it is: every call returns `event_queue.empty()` and nothing advances -/
-theorem steps_stall (cfg : Cfg K) (fuel : Nat) : ∀ (scheds : List (Schedule K)) (s : State K),
+/-- F17: once `_resolve` was set, a whole sequence of `step()` calls left the simulator where it was -/
+theorem stepsUnfixed_stall (cfg : Cfg K) (fuel : Nat) : ∀ (scheds : List (Schedule K)) (s : State K),
     s.core.resolve = true →
-    steps cfg fuel scheds s = (s, scheds.map fun _ => (.ok s.core.pending.isEmpty, s.core.iter)) := by
+    stepsUnfixed cfg fuel scheds s = (s, scheds.map fun _ => (.ok s.core.pending.isEmpty, s.core.iter)) := by
   intro scheds
   induction scheds with
   | nil => intro s _; rfl
   | cons sch rest ih =>
     intro s h
-    simp only [steps, step_noop_of_resolve cfg sch fuel s h, ih s h, List.map_cons]
+    simp only [stepsUnfixed, stepUnfixed_noop_of_resolve cfg sch fuel s h, ih s h, List.map_cons]
 
 end Acn.Sim
